@@ -7,22 +7,48 @@ import (
 	"fmt"
 	"go/constant"
 	"go/token"
+	"go/types"
 
 	"golang.org/x/tools/go/ssa"
 )
 
 // infixClosures finds comparePrecedence and buildTopOperators by signature.
 func infixClosures(pie *ssa.Function) (cmp, reduce *ssa.Function) {
+	isTok := func(t types.Type) bool { return typeNameOf(t) == "token" }
+	isCmp := func(f *ssa.Function) bool {
+		n := len(f.Params)
+		if n < 2 || f.Signature.Results().Len() != 1 {
+			return false
+		}
+		bt, ok := f.Signature.Results().At(0).Type().Underlying().(*types.Basic)
+		return ok && bt.Kind() == types.Int && isTok(f.Params[n-1].Type()) && isTok(f.Params[n-2].Type()) && (n == 2 || (n == 3 && f.Signature.Recv() != nil))
+	}
 	for _, an := range pie.AnonFuncs {
 		sig := an.Signature
-		if sig.Params().Len() == 2 && sig.Results().Len() == 1 && typeNameOf(sig.Params().At(0).Type()) == "token" && typeNameOf(sig.Params().At(1).Type()) == "token" {
+		if isCmp(an) {
 			cmp = an
 		}
-		if sig.Params().Len() == 1 && sig.Results().Len() == 1 && typeNameOf(sig.Params().At(0).Type()) == "token" && isErrorType(sig.Results().At(0).Type()) {
+		if sig.Params().Len() == 1 && sig.Results().Len() == 1 && isTok(sig.Params().At(0).Type()) && isErrorType(sig.Results().At(0).Type()) {
 			reduce = an
 		}
 	}
+	if cmp == nil && reduce != nil {
+		// the comparison as a named function or method called from the reduction
+		EachInstr(reduce, func(in ssa.Instruction) {
+			if c, ok := in.(*ssa.Call); ok {
+				if h := c.Call.StaticCallee(); h != nil && len(h.Blocks) > 0 && isCmp(h) {
+					cmp = h
+				}
+			}
+		})
+	}
 	return
+}
+
+// cmpParams returns the (car, top) parameters of the precedence comparison (a closure, function or method).
+func cmpParams(cmp *ssa.Function) (car, top *ssa.Parameter) {
+	n := len(cmp.Params)
+	return cmp.Params[n-2], cmp.Params[n-1]
 }
 
 // callsClosure: c is a dynamic call of a local variable / captured variable that holds closure fn.
@@ -127,7 +153,7 @@ func ruleReduceGate(w *World, r *Report) {
 		gated := false
 		for _, f := range factsAt(c.Block()) {
 			if call, stopTruth, ok := cmpStopFact(f.Cond, cmp); ok && f.Truth != stopTruth {
-				if len(call.Call.Args) == 2 && varRoot(call.Call.Args[0]) == ssa.Value(reduce.Params[0]) {
+				if na := len(call.Call.Args); na >= 2 && varRoot(call.Call.Args[na-2]) == reduce.Params[0] {
 					gated = true
 				}
 			}
